@@ -26,6 +26,7 @@ use teos::chain_monitor::ChainMonitor;
 use teos::dbm::DBM;
 use teos::gatekeeper::Gatekeeper;
 use teos::protos as msgs;
+use teos::protos::private_tower_services_server::PrivateTowerServices;
 use teos::protos::public_tower_services_server::PublicTowerServices;
 use teos::responder::{ConfirmationStatus, Responder};
 use teos::watcher::Watcher;
@@ -1041,6 +1042,71 @@ impl Rig {
             })
         }));
         self.finish_call(json!({"act": "Get", "who": who, "u": u, "cls": sig_cls, "l": l}), r)
+    }
+
+    /// The operator's view (private API behind teos-cli): tower info, user ids, every user, every appointment and tracker.
+    /// One Cli event carrying all of it; read-only.
+    pub fn cli(&mut self, users: &[i64]) -> Value {
+        let api = self.api();
+        let rec = self.rec.clone();
+        let scale = self.cfg.scale;
+        let pks: Vec<(i64, PublicKey)> = users.iter().map(|u| (*u, self.rec.lock().unwrap().sym.user(*u).1)).collect();
+        let r = catch_unwind(AssertUnwindSafe(|| {
+            self.rt.block_on(async {
+                let info = match PrivateTowerServices::get_tower_info(&api, Request::new(())).await {
+                    Ok(x) => x.into_inner(),
+                    Err(s) => return code_of(&s),
+                };
+                let ids = match PrivateTowerServices::get_users(&api, Request::new(())).await {
+                    Ok(x) => x.into_inner().user_ids,
+                    Err(s) => return code_of(&s),
+                };
+                let all = match PrivateTowerServices::get_all_appointments(&api, Request::new(())).await {
+                    Ok(x) => x.into_inner().appointments,
+                    Err(s) => return code_of(&s),
+                };
+                let mut per_user = Vec::new();
+                for (u, pk) in pks.iter() {
+                    match PrivateTowerServices::get_user(&api, Request::new(msgs::GetUserRequest { user_id: pk.serialize().to_vec() })).await {
+                        Ok(x) => {
+                            let m = x.into_inner();
+                            let rec = rec.lock().unwrap();
+                            let mut ls: Vec<i64> = m.appointments.iter().map(|uuid| rec.uuid_map.get(uuid).map(|x| x.1).unwrap_or(-1)).collect();
+                            ls.sort();
+                            per_user.push(json!([u, "ok", m.available_slots / scale, m.subscription_expiry, ls]));
+                        }
+                        Err(s) => per_user.push(json!([u, if s.code() == tonic::Code::NotFound { "notfound" } else { "error" }, 0, 0, []])),
+                    }
+                }
+                let rec = rec.lock().unwrap();
+                let mut known: Vec<i64> = Vec::new();
+                for id in ids.iter() {
+                    known.push(pks.iter().find(|(_, pk)| pk.serialize().to_vec() == *id).map(|(u, _)| *u).unwrap_or(-1));
+                }
+                known.sort();
+                let (mut appts, mut trackers) = (Vec::new(), Vec::new());
+                for d in all.into_iter() {
+                    match d.appointment_data {
+                        Some(common_msgs::appointment_data::AppointmentData::Appointment(a)) => {
+                            let (key, pay) = *rec.sym.blobs.get(&a.encrypted_blob).unwrap_or(&(-999, -999));
+                            let l = *rec.sym.loc_sym.get(&a.locator).unwrap_or(&-1);
+                            appts.push(json!([l, key, pay, a.encrypted_blob.len(), a.to_self_delay]));
+                        }
+                        Some(common_msgs::appointment_data::AppointmentData::Tracker(t)) => {
+                            let d = Txid::from_slice(&t.dispute_txid).map(|x| rec.sym.sym_of_txid(&x)).unwrap_or(-1);
+                            let p = Txid::from_slice(&t.penalty_txid).map(|x| rec.sym.sym_of_txid(&x)).unwrap_or(-1);
+                            trackers.push(json!([d, p]));
+                        }
+                        None => {}
+                    }
+                }
+                appts.sort_by_key(|x| x.to_string());
+                trackers.sort_by_key(|x| x.to_string());
+                json!({"code": "ok", "n_users": info.n_registered_users, "n_appts": info.n_watcher_appointments, "n_trackers": info.n_responder_trackers,
+                       "reachable": info.bitcoind_reachable, "users": known, "per_user": per_user, "appts": appts, "trackers": trackers})
+            })
+        }));
+        self.finish_call(json!({"act": "Cli", "asked": users}), r)
     }
 
     pub fn sub(&mut self, u: i64, sig_cls: &str) -> Value {
